@@ -3,6 +3,9 @@
  * script lines `<rank|*> <cmd> <args>`; every rank executes the lines addressed to it or to `*`, in file order.
  *   send dst tag count ty | recv src tag count ty | isend dst tag count ty | irecv src tag count ty
  *   wait k (k-th pending request of this rank, oldest first) | waitall
+ *   test k (MPI_Test on the k-th pending request; it stays in the list, as MPI_REQUEST_NULL when the test succeeded)
+ *   poll k (MPI_Test on the k-th pending request until it succeeds, then drop it from the list)
+ *   sendrecv dst src count ty (tags 0) | scan count ty | exscan count ty
  *   barrier | bcast count root ty | reduce count root ty | allreduce count ty
  *   alltoall scount rcount ty | gather scount rcount root ty | scatter scount rcount root ty | allgather scount rcount ty
  *   gatherv scount root ty rc_0..rc_{n-1} | scatterv rcount root ty sc_0..sc_{n-1} | allgatherv scount ty rc_0..rc_{n-1}
@@ -72,7 +75,26 @@ int main(int argc, char** argv)
         memmove(&reqs[k], &reqs[k + 1], sizeof(MPI_Request) * (nreq - k - 1));
         nreq--;
       }
-    } else if (!strcmp(c, "waitall")) {
+    } else if (!strcmp(c, "test")) {
+      int k = atoi(tok[2]), flag = 0;
+      if (k < nreq)
+        MPI_Test(&reqs[k], &flag, MPI_STATUS_IGNORE);
+    } else if (!strcmp(c, "poll")) {
+      int k = atoi(tok[2]), flag = 0;
+      if (k < nreq) {
+        while (!flag)
+          MPI_Test(&reqs[k], &flag, MPI_STATUS_IGNORE);
+        memmove(&reqs[k], &reqs[k + 1], sizeof(MPI_Request) * (nreq - k - 1));
+        nreq--;
+      }
+    } else if (!strcmp(c, "sendrecv"))
+      MPI_Sendrecv(sbuf, atoi(tok[4]), ty(tok[5]), atoi(tok[2]), 0, rbuf, atoi(tok[4]), ty(tok[5]), atoi(tok[3]), 0,
+                   MPI_COMM_WORLD, MPI_STATUS_IGNORE);
+    else if (!strcmp(c, "scan"))
+      MPI_Scan(sbuf, rbuf, atoi(tok[2]), ty(tok[3]), MPI_MAX, MPI_COMM_WORLD);
+    else if (!strcmp(c, "exscan"))
+      MPI_Exscan(sbuf, rbuf, atoi(tok[2]), ty(tok[3]), MPI_MAX, MPI_COMM_WORLD);
+    else if (!strcmp(c, "waitall")) {
       MPI_Waitall(nreq, reqs, MPI_STATUSES_IGNORE);
       nreq = 0;
     } else if (!strcmp(c, "barrier"))
